@@ -125,6 +125,26 @@ impl Arena {
     }
 }
 
+/// Read-only accessors for model comparison. Only compiled with `--cfg naijascript_verif`.
+#[cfg(naijascript_verif)]
+impl Arena {
+    pub fn verif_commit(&self) -> usize {
+        self.delegate_target_unchecked().verif_commit()
+    }
+
+    pub fn verif_capacity(&self) -> usize {
+        self.delegate_target_unchecked().verif_capacity()
+    }
+
+    pub fn verif_base(&self) -> usize {
+        self.delegate_target_unchecked().verif_base()
+    }
+
+    pub const fn verif_chunk_size() -> usize {
+        bump::Arena::verif_chunk_size()
+    }
+}
+
 unsafe impl Allocator for Arena {
     fn allocate(&self, layout: Layout) -> Result<NonNull<[u8]>, AllocError> {
         self.delegate_target().alloc_raw(layout.size(), layout.align())
